@@ -533,7 +533,7 @@ Lemma frontend_deps_STEP e m ts w : STEP w (fst (frontend_deps e m ts w)).
 Proof.
   unfold frontend_deps. destruct m; [apply STEP_refl|].
   destruct (e_target e) as [me|]; [|apply STEP_refl].
-  destruct (e_unlocked e); [apply STEP_refl|].
+  destruct (e_unlocked e || e_no_oob e); [apply STEP_refl|].
   destruct (existsb (bytes_eqb me) ts); [apply STEP_refl|].
   destruct (from_name (dbs w) me) as [d1 mf] eqn:E. cbn [fst].
   apply STEP_ext. apply from_name_spec in E as (_ & X & _).
